@@ -452,55 +452,6 @@ findInsertionPointBinarySearch(
 
 
 
-template<class PredicateType>
-inline bool
-findInsertionPointLinearSearch(
-            XalanNode*                                  node,
-            MutableNodeRefList::NodeListIteratorType    begin,
-            MutableNodeRefList::NodeListIteratorType    end,
-            MutableNodeRefList::NodeListIteratorType&   insertionPoint,
-            const PredicateType                         isNodeAfterPredicate)
-{
-    assert(node != 0);
-
-    bool    fInsert = true;
-
-    typedef MutableNodeRefList::NodeListIteratorType    NodeListIteratorType;
-
-    NodeListIteratorType    current(begin);
-
-    // Loop, looking for the node, or for a
-    // node that's before the one we're adding...
-    while(current != end)
-    {
-        const XalanNode*    child = *current;
-        assert(child != 0);
-
-        if(child == node)
-        {
-            // Duplicate, don't insert...
-            fInsert = false;
-
-            break;
-        }
-        else if (isNodeAfterPredicate(*node, *child) == false)
-        {
-            // We found the insertion point...
-            break;
-        }
-        else
-        {
-            ++current;
-        }
-    }
-
-    insertionPoint = current;
-
-    return fInsert;
-}
-
-
-
 // Normalize so that a document node owns itself, which is
 // not how DOM works...
 inline const XalanNode*
@@ -522,6 +473,76 @@ isDocumentNode(const XalanNode&     node)
 
     return theType == XalanNode::DOCUMENT_NODE ||
            theType == XalanNode::DOCUMENT_FRAGMENT_NODE;
+}
+
+
+
+template<class PredicateType>
+inline bool
+findInsertionPointLinearSearch(
+            XalanNode*                                  node,
+            MutableNodeRefList::NodeListIteratorType    begin,
+            MutableNodeRefList::NodeListIteratorType    end,
+            MutableNodeRefList::NodeListIteratorType&   insertionPoint,
+            const PredicateType                         isNodeAfterPredicate)
+{
+    assert(node != 0);
+
+    bool    fInsert = true;
+
+    typedef MutableNodeRefList::NodeListIteratorType    NodeListIteratorType;
+
+    NodeListIteratorType    current(begin);
+
+    const XalanNode* const  theOwner = getOwnerNormalized(*node);
+
+    // The nodes of one document are kept together, and the documents
+    // are ordered by their first appearance in the list.
+    bool    fSeenOwnDocument = false;
+
+    // Loop, looking for the node, or for a
+    // node that's before the one we're adding...
+    while(current != end)
+    {
+        const XalanNode*    child = *current;
+        assert(child != 0);
+
+        if(child == node)
+        {
+            // Duplicate, don't insert...
+            fInsert = false;
+
+            break;
+        }
+        else if (getOwnerNormalized(*child) != theOwner)
+        {
+            if (fSeenOwnDocument == true)
+            {
+                // We're past the nodes of our own document, so
+                // this is the insertion point...
+                break;
+            }
+            else
+            {
+                ++current;
+            }
+        }
+        else if (isNodeAfterPredicate(*node, *child) == false)
+        {
+            // We found the insertion point...
+            break;
+        }
+        else
+        {
+            fSeenOwnDocument = true;
+
+            ++current;
+        }
+    }
+
+    insertionPoint = current;
+
+    return fInsert;
 }
 
 
